@@ -40,7 +40,7 @@ func checkC06(c c06Case) verdict {
 		labels = append(labels, "constructor-error")
 	}
 	in := toLibIn(c.In)
-	disturb(c.Before)
+	disturb(c.Before, c.Secret)
 	g, gerr := otp.GenerateOCRA(c.Secret, suite, in)
 	got, err := otp.ValidateOCRA(c.Secret, string(c.Code), suite, in)
 	if gerr != nil {
